@@ -52,6 +52,10 @@ pub static OUT: Mutex<Option<File>> = Mutex::new(None);
 pub static ACTIVE: AtomicBool = AtomicBool::new(false);
 pub static LOG_ON: AtomicBool = AtomicBool::new(false);
 pub static PROGRESS: AtomicU64 = AtomicU64::new(0);
+/// trace lines written for the current case; a case that writes more than `LINE_LIMIT` lines is runaway
+/// (e.g. a loop that never sees the end): it is reported like a hang.
+pub static CASE_LINES: AtomicU64 = AtomicU64::new(0);
+pub const LINE_LIMIT: u64 = 50_000;
 pub static CLONES: AtomicU64 = AtomicU64::new(0);
 pub static CLONEPANIC: AtomicU64 = AtomicU64::new(u64::MAX);
 
@@ -85,7 +89,22 @@ pub fn write_raw(s: &str) {
             std::process::exit(1);
         }
     }
+    drop(g);
     PROGRESS.fetch_add(1, Ordering::Relaxed);
+    if CASE_LINES.fetch_add(1, Ordering::Relaxed) == LINE_LIMIT {
+        runaway();
+    }
+}
+
+/// The case does unbounded work (e.g. iterates a wrapped-around range): report it like a hang and stop.
+pub fn runaway() -> ! {
+    LOG_ON.store(false, Ordering::SeqCst);
+    let mut g = OUT.lock().unwrap_or_else(|e| e.into_inner());
+    if let Some(f) = g.as_mut() {
+        let _ = f.write_all(b"fin hang\n");
+        let _ = f.flush();
+    }
+    std::process::exit(3);
 }
 
 /// Logs one trace line `T<t> <body>` / `own <body>`.
@@ -187,6 +206,7 @@ pub fn begin_case(nthreads: usize, iter_kind: bool, clonepanic: Option<u64>) {
     CLONES.store(0, Ordering::Relaxed);
     CLONEPANIC.store(clonepanic.unwrap_or(u64::MAX), Ordering::Relaxed);
     crate::alloc::reset();
+    CASE_LINES.store(0, Ordering::Relaxed);
     ACTIVE.store(true, Ordering::SeqCst);
     LOG_ON.store(true, Ordering::SeqCst);
 }
@@ -319,7 +339,7 @@ pub fn spawn_watchdog() {
                 continue;
             }
             idle_ms += 200;
-            if idle_ms >= 10_000 {
+            if idle_ms >= 3_000 {
                 LOG_ON.store(false, Ordering::SeqCst);
                 write_raw("fin hang\n");
                 std::process::exit(3);
